@@ -99,8 +99,8 @@ class _Stub:
     def set_power(self, power, duration, rapid=False): self._chk('set_power'); DEV.append((self, 'set_power', power, duration))
     def set_zone_color(self, start, end, color, duration=0, rapid=False, apply=1): self._chk('set_zone_color'); DEV.append((self, 'set_zone_color', start, end, color, duration))
     def fire_and_forget(self, msg, payload, **kw): self._chk('fire_and_forget'); DEV.append((self, 'set_matrix', payload['colors'], payload['duration']))
-    def get_color(self): self._chk('get_color'); DEV.append((self, 'get_color')); return [0, 0, 0, 0]
-    def get_power(self): self._chk('get_power'); DEV.append((self, 'get_power')); return 0
+    def get_color(self): self._chk('get_color'); DEV.append((self, 'get_color')); return self.__dict__.get('_returns', {}).get('device_color', [0, 0, 0, 0])
+    def get_power(self): self._chk('get_power'); DEV.append((self, 'get_power')); return self.__dict__.get('_returns', {}).get('device_power', 0)
     def set_color_all_lights(self, color, duration, rapid=False): self._chk('set_color_all_lights'); DEV.append((self, 'set_color_all_lights', color, duration))
     def set_power_all_lights(self, power, duration, rapid=False): self._chk('set_power_all_lights'); DEV.append((self, 'set_power_all_lights', power, duration))
     # clock
